@@ -59,6 +59,10 @@ func stdCtx(t *rapid.T) Ctx {
 		big[i] = Int(int64(i - 10))
 	}
 	c.Set("big", List(big...))
+	// names that collide under the usual multiply-by-31 string hash (and differ in content)
+	for i, n := range []string{"Aa", "BB", "x1", "wP", "AO", "B0"} {
+		c.Set(n, Int(int64(si.Draw(t, "hv")+i)))
+	}
 	return c
 }
 
@@ -110,6 +114,9 @@ func (g *xgen) intAtom() *E {
 	if len(g.extraInts) > 0 && g.pick(3, "useextra") == 0 {
 		cp := *g.extraInts[g.pick(len(g.extraInts), "extraint")]
 		return &cp
+	}
+	if g.pick(8, "collidingname") == 0 {
+		return Var(rapid.SampledFrom([]string{"Aa", "BB", "x1", "wP", "AO", "B0"}).Draw(g.t, "hname"))
 	}
 	switch g.pick(13, "intatom") {
 	case 0, 1:
